@@ -25,7 +25,7 @@ CHECKS = {
                   "interpolation; escape/quoteattr sanitisers; one-level wrapper inlining), tag-name agreement, constant folding of the re-declaration "
                   "helper (or of the expression it was folded into), def-use output coverage of every return path, long-lived-state / memo-key rule",
         text="Partial: the escaping discipline well-formedness depends on is decided for every interpolation of node data in both "
-             "exporters, plus tag balance and the namespace re-declaration rule; parse-back equality needs a parser run and is not decided.",
+             "exporters, plus the tag structure per combination class (folded output read back) and the namespace re-declaration rule; parse-back equality for arbitrary strings is not decided.",
         note="names/prefixes are XML-legal by the quantifier; EML-exporter pruning idioms (pre-escaped entities, inline para) are recognised by "
              "the shape of the test, not by text",
         ref="DESIGN.md section 3, C07"),
@@ -43,7 +43,7 @@ CHECKS = {
                   "value provenance to the restoring sink and guard dependence, constructor/setter sibling agreement, constructor-argument re-binding rule, "
                   "abstract execution of the upgrade's constant-index inserts",
         text="Partial: writer/reader agreement slot by slot, coverage of every Node field (incl. one added later) with provenance, parent "
-             "links on load and the upgrade's layout algebra are decided; byte identity and Unicode fidelity are the json library's.",
+             "links on load and the upgrade's layout algebra are decided; the round trip (ids, every field, identical re-serialisation) per class of filled / empty fields; Unicode fidelity is the json library's.",
         note="namespace-map replay through add_namespace is covered structurally by C13",
         ref="DESIGN.md section 3, C06"),
     "C15": dict(
@@ -51,7 +51,7 @@ CHECKS = {
                   "unregister pairing, effect summary bound, element-kind consistency of membership tests, live-iteration rule, must-marker dataflow "
                   "'pruned below before judged' and guard-dependence of the strict validation",
         text="Partial: prune never raises (all paths, all callees), the sweep runs for every rule error, every removal is recorded and "
-             "unregistered and nothing else is written; that the remainder is valid and idempotence are not decided.",
+             "unregistered and nothing else is written; the outcome (exactly the offending subtrees, idempotence) on a catalogue of small documents in both modes, not on every tree.",
         note="distinct variables iterating a duplicate-free child list denote distinct nodes; D-TREE/D-REG provisos",
         ref="DESIGN.md section 3, C15"),
     "C16": dict(
@@ -59,7 +59,7 @@ CHECKS = {
                   "loop back edges), def-use/dominance check of the insertion index, copy provenance, loop-shape rules, guarded-entry and "
                   "unconditional-entry discipline of the id register",
         text="Partial: atomic failure, in-place ordered insertion, copies-not-originals and complete cleanup are decided on all paths of "
-             "expand; that the result validates is not.",
+             "expand, and the outcome on eight small documents; that the result validates is not.",
         note="independence of the copies is C12; only the documented ValueError may escape",
         ref="DESIGN.md section 3, C16"),
     "C19": dict(
@@ -67,7 +67,7 @@ CHECKS = {
                   "comparison, enum-alias check, threshold guards evaluated at t-1, t, t+1, descendant text collection, latched found-flags, "
                   "no deep queries in evaluators, no long-lived state on the evaluation slice",
         text="Partial: totality on all paths of all evaluators, the shape of what is appended, completeness of the warning set and the "
-             "three documented thresholds are decided; that the emitted set equals the recommendations on every tree is not.",
+             "three documented thresholds are decided; the emitted set is compared with the documented recommendations per class of facts (200 abstract trees), not on every tree.",
         note="word counting relies on normalize()/split (library semantics)",
         ref="DESIGN.md section 3, C19"),
     "C12": dict(
@@ -161,6 +161,29 @@ CHECKS = {
 }
 
 
+# round 5: whole pure functions constant-folded (sa/peval.py over the syntax tree, nothing of /repo imported or run) on abstract trees, one per
+# equivalence class of what the function can observe (DESIGN.md section 2.7)
+FOLD = {
+    "C02": "each typed dispatch arm folded over {of the type, not of the type} x {fail-fast, collecting}",
+    "C03": "introspection helpers also folded over an abstract rule with every spec kind",
+    "C04": "tree / node validation folded on ten small documents: tuple shape, rule-error family, list empty iff fail-fast succeeds",
+    "C05": "validate.tree folded against the concatenation of the folded validate.node over the nodes outside metadata (a relation between two entry points, no oracle); "
+           "metadata occupancy guard evaluated for 0..3 children",
+    "C06": "to_json -> from_json, the legacy codec and legacy -> converter -> current reader folded over a catalogue of trees (fields None / empty / filled, nesting, shared maps)",
+    "C07": "both exporters folded over abstract trees and the folded text read back by a small tag reader (balanced, same names / attributes / texts / tails / nesting)",
+    "C09": "the eight queries folded over every position class of a name and compared by identity with the ordered-tree model; add / remove / replace / shift / clear folded on the "
+           "child list (a, b, a, c, a) against the ordered-list model",
+    "C12": "copy folded over the tree catalogue: equal, fresh registered ids, parent links inside the copy, no shared mutable object",
+    "C13": "add_namespace / remove_namespace / add_child folded on a small forest under four sharing patterns: effect inside the subtree, nothing outside",
+    "C14": "creation, delete_node_instance and replace_child folded on a small tree: the folded registry holds exactly the live nodes",
+    "C15": "prune (with the validator and the rule table below it) folded on nine documents x both modes: exactly the offending subtrees gone, kept nodes untouched, returned list, "
+           "registry, idempotence",
+    "C16": "expand folded on eight documents: ordered independent copies in place, referenced element untouched, registry, ValueError with the tree left as it was",
+    "C18": "is_equal folded over pairs of abstract trees that agree everywhere or differ in exactly one field in every way its kind allows, both argument orders",
+    "C19": "every evaluator folded over 200 trees, one per class of facts its recommendation is stated in (each factor varied from a complete and a bare element, counts around the thresholds)",
+}
+
+
 def build():
     checks = []
     for pid in sorted(CHECKS):
@@ -176,7 +199,7 @@ def build():
             "engine": "sa",
             "level_claimed": {"category": "other", "text": c["text"], "design_ref": c["ref"]},
             "level_note": c["note"],
-            "technique": c["technique"],
+            "technique": c["technique"] + (("; constant folding of whole pure functions over finitely many classes of abstract trees: " + FOLD[pid]) if pid in FOLD else ""),
         })
     claimed = {c["property_id"] for c in checks}
     na = [{"property_id": k, "reason": v} for k, v in sorted(NA.items())]
